@@ -60,6 +60,7 @@ func (c *c14) Cases(tier string, seed int64) []core.Case {
 	}
 	for _, f := range []string{"par2", "par1"} {
 		cs = append(cs, core.MkCase(f+"-dangling-link", c14Params{Seed: sd, Fmt: f, Mode: "dangling"}))
+		cs = append(cs, core.MkCase(f+"-all-data-lost", c14Params{Seed: r.Int63(), Fmt: f, Mode: "all-lost"}))
 	}
 	n := map[string]int{"quick": 16, "thorough": 1000}[tier]
 	for i := 0; i < n; i++ {
@@ -452,10 +453,101 @@ func (c *c14) runDangling(r *core.R, p c14Params) {
 	r.Sample(map[string]interface{}{"mode": "dangling", "format": p.Fmt, "files": len(w.paths)})
 }
 
+// runAllLost: sets small enough that the recovery data alone can rebuild
+// everything; every protected file is lost (deleted, emptied or overwritten
+// with junk of another length), so not a single data slice survives. Repair
+// must restore all of them, as often as it is asked.
+func (c *c14) runAllLost(r *core.R, p c14Params) {
+	rng := rand.New(rand.NewSource(p.Seed))
+	for trial := 0; trial < 12; trial++ {
+		root, err := os.MkdirTemp("", "c14all-")
+		if err != nil {
+			r.Inconclusive("tempdir: %v", err)
+			return
+		}
+		dir := filepath.Join(root, "set")
+		os.MkdirAll(dir, 0755)
+		nf := 1 + rng.Intn(3)
+		slice := []int{4, 16, 64}[rng.Intn(3)]
+		var paths []string
+		var datas [][]byte
+		total := 0
+		for i := 0; i < nf; i++ {
+			b := scen.GenData(rng, "random", 1+rng.Intn(3*slice), slice)
+			pth := filepath.Join(dir, fmt.Sprintf("all%d.bin", i))
+			os.WriteFile(pth, b, 0644)
+			paths = append(paths, pth)
+			datas = append(datas, b)
+			total += (len(b) + slice - 1) / slice
+		}
+		var idx string
+		var cerr error
+		if p.Fmt == "par2" {
+			idx = filepath.Join(dir, "all.par2")
+			cerr = par2.Create(idx, paths, par2.CreateOptions{SliceByteCount: slice, NumParityShards: total + rng.Intn(3), NumGoroutines: 2})
+		} else {
+			idx = filepath.Join(dir, "all.par")
+			cerr = par1.Create(idx, paths, par1.CreateOptions{NumParityFiles: nf + rng.Intn(2)})
+		}
+		if cerr != nil {
+			r.Violate("setup-create-failed", "%v", cerr)
+			os.RemoveAll(root)
+			return
+		}
+		how := []string{"deleted", "emptied", "junk"}[trial%3]
+		lose := func() {
+			for _, pth := range paths {
+				switch how {
+				case "deleted":
+					os.Remove(pth)
+				case "emptied":
+					os.WriteFile(pth, nil, 0644)
+				default:
+					os.WriteFile(pth, scen.Garbage(rng, 1+rng.Intn(5)), 0644)
+				}
+			}
+		}
+		desc := fmt.Sprintf("%s: %d files (%d slices of %d bytes), every one %s, all recovery files present", p.Fmt, nf, total, slice, how)
+		for round := 0; round < 2; round++ {
+			lose()
+			core.Note("C14 %s round %d", desc, round)
+			var rerr error
+			pi := core.Protect(func() {
+				if p.Fmt == "par2" {
+					_, rerr = par2.Repair(idx, par2.RepairOptions{NumGoroutines: 2, DoubleCheck: round == 1})
+				} else {
+					_, rerr = par1.Repair(idx, par1.RepairOptions{DoubleCheck: round == 1})
+				}
+			})
+			if pi != nil {
+				r.Violate(core.CrashSig(p.Fmt+".Repair", pi.Frame, pi.Msg), "%s: panic %s", desc, pi.Msg)
+				break
+			}
+			if rerr != nil {
+				r.Violate("repair-does-not-converge", "%s: Repair fails although the recovery data covers every slice: %v", desc, rerr)
+				break
+			}
+			for i, pth := range paths {
+				if b, err := os.ReadFile(pth); err != nil || string(b) != string(datas[i]) {
+					r.Violate("successful-repair-left-damage", "%s: Repair returned nil but %s is not the original", desc, filepath.Base(pth))
+				}
+			}
+			r.Count("all_lost_repairs", 1)
+		}
+		r.Key("all-lost|%s|%d|%d|%s", p.Fmt, nf, slice, how)
+		os.RemoveAll(root)
+	}
+	r.Sample(map[string]interface{}{"mode": "all-lost", "format": p.Fmt})
+}
+
 func (c *c14) Run(cs core.Case) core.Result {
 	var p c14Params
 	core.Decode(cs, &p)
 	r := core.NewR(cs)
+	if p.Mode == "all-lost" {
+		c.runAllLost(r, p)
+		return r.Done()
+	}
 	if p.Mode == "dangling" {
 		c.runDangling(r, p)
 		return r.Done()
